@@ -51,7 +51,7 @@ def judge(case, raw, cmpr, model):
             # the text writer on the original / of the scanner belong to C10, crashes while executing the original
             # context are the generator's problem.
             st = d.get('@', 'output')
-            if st in ('write', 'write2', 'read', 'output-after-read', 'rewrite', 'exec-after-read', 'probe-after-read'):
+            if st in ('write', 'write2', 'read', 'output-after-read', 'rewrite', 'file-io', 'exec-after-read', 'probe-after-read'):
                 bad.append(('crash:' + st, '%s build: crash (%s) in stage %s' % (tag, d['CRASH'], st)))
                 continue
             if st in ('output', 'exec-original'):
@@ -69,6 +69,11 @@ def judge(case, raw, cmpr, model):
             continue
         if d.get('T1') != '=':
             bad.append(('text-differs-after-read', '%s: MIR_output differs after the binary round trip' % tag))
+        if d.get('WF', '=') != '=':
+            bad.append(('file-writer-differs', '%s: MIR_write (FILE*) and MIR_write_with_func give different bytes: %s' % (tag, d.get('WF'))))
+        if 'RM' in d and (d.get('RM') != 'ok' or d.get('TM') != '='):
+            bad.append(('module-writer-differs', '%s: modules written one by one (MIR_write_module) and read with MIR_read do not '
+                        'print as the original context: %s' % (tag, d.get('RM'))))
         if d.get('RW', '=') != '=':
             bad.append(('rewrite-differs-after-read', '%s: the context read back serialises to different bytes than it was read from' % tag))
         if 'X0' in d and d.get('X1') != d.get('X0'):
